@@ -3,6 +3,8 @@
 package reader
 
 import (
+	"context"
+
 	clientv3 "go.etcd.io/etcd/client/v3"
 
 	"github.com/milvus-io/milvus/pkg/mq/msgdispatcher"
@@ -27,3 +29,6 @@ func verifEtcdClient(cfg config.EtcdServerConfig) *clientv3.Client { return nil 
 func verifDispatcherClient(mqConfig config.MQConfig, ttMsgStream bool) msgdispatcher.Client {
 	return nil
 }
+
+// verifNilIfDone returns ch unchanged unless built with the verif tag.
+func verifNilIfDone[C any](ctx context.Context, ch C, site string) C { return ch }
